@@ -87,8 +87,14 @@ KEY_CLASSES = (["empty"] + ["single"] * 2 + ["sparse"] * 5 + ["gradeblock"] * 2 
                + ["perm"] * 4)
 
 
+def _bits(k):
+    return tuple(j for j in range(k.bit_length()) if k >> j & 1)
+
+
 def canon_sorted(keys):
-    return tuple(sorted(keys, key=lambda k: (pc(k), k)))
+    """Canonical order of a DEFAULT basis: by grade, then by blade name, i.e. lexicographic in the generator sequence
+    (for d >= 4 this differs from numeric order: e14 (9) comes before e23 (6))."""
+    return tuple(sorted(keys, key=lambda k: (pc(k), _bits(k))))
 
 
 @st.composite
